@@ -63,6 +63,13 @@ impl Catalog {
         Ok(id)
     }
 
+    /// Re-registers a schema read back from the persisted catalog (a schema
+    /// created with CREATE SCHEMA is not part of `Catalog::new()`).
+    pub(crate) fn restore_schema(&mut self, schema: Schema) {
+        self.next_schema_id = self.next_schema_id.max(schema.id() + 1);
+        self.schemas.insert(schema.name().to_string(), schema);
+    }
+
     pub fn drop_schema(&mut self, name: &str) -> Result<()> {
         ensure!(
             name != "turdb_catalog",
